@@ -28,6 +28,11 @@ Allowed rewrites (each is logged per function and reported in the evidence):
      `//@before <text> :: <proof block>` puts a proof block (a hint: assertions only) in front of every occurrence of <text>
   R8 `<ident> == "<literal>"` on a String -> verif_io::str_eq(&<ident>, "<literal>") (same meaning; vstd has no spec for
      String: PartialEq<&str>); `std::io::stdout().flush()` -> verif_io::flush()
+  R11 (only in actions whose template says `//@strslice`) `p[a..b]` / `&p[a..b]` / `p.len()` on a `&str` PARAMETER p ->
+      verif_io::str_slice(p, a, b) / verif_io::str_len(p): assumed contracts = std's byte semantics on ASCII text; that the
+      text is ASCII is a precondition of the action (it is what the token's regex admits)
+  R12 (with `//@strslice`) `(<str>).bytes()` -> `verif_io::str_bytes_vec(<str>).into_iter()`: iteration over the vector of the
+      text's bytes (assumed contract: for ASCII text, byte i = character i); same bytes, same order
   R10 a local variable named `int` (a Verus builtin type name) is renamed `int_no`
   R9 print arguments: a slice of the source text `&x[a..b]` is logged as an opaque value (its rendering, and the slicing
      itself, are NOT checked); an identifier named by `//@str <ident>` is a String and is logged as verif_io::str_id(&ident)
@@ -127,7 +132,7 @@ class Extractor:
             i += 1
         raise Undecided("function body not found")
 
-    def action(self, rel: str, sig: str, name: str, contract: str, loops: Dict[int, str] = None, drop=("input",)) -> str:
+    def action(self, rel: str, sig: str, name: str, contract: str, loops: Dict[int, str] = None, drop=("input",), opts=None) -> str:
         t, acts, prods = self.table(rel)
         want = re.sub(r"\s+", " ", sig.strip())
         hit = [p for p in prods if re.sub(r"\s+", " ", p.sig) == want]
@@ -154,7 +159,67 @@ class Extractor:
         fsig = f"fn {name}({', '.join(params)}) -> {ret}" if ret != "()" else f"fn {name}({', '.join(params)})"
         self.rewrites.append(f"{rel}: `{sig}` (__action{a.n}): R1")
         self.functions.append(f"{rel}::[{sig}]")
-        return self._assemble(fsig, contract, a.body, loops, f"{rel}::[{sig}]")
+        body = a.body
+        if opts and opts.get("strslice"):
+            # R11 (only where the template asks for it): byte slicing / byte length of a `&str` PARAMETER
+            for prm in params:
+                pn, _, pt = prm.partition(": ")
+                if pt.strip() != "&str":
+                    continue
+                body, n = self._str_param_ops(body, pn.strip())
+                if n:
+                    self.rewrites.append(f"{rel}: `{sig}`: R11 {n} byte-slice / len operation(s) on &str parameter `{pn.strip()}` -> verif_io::str_slice / str_len (contracts valid for ASCII text, required of the caller)")
+        if opts and opts.get("strslice") and ").bytes()" in body:
+            # R12: `(<str expr>).bytes()` -> iteration over the vector of its bytes
+            n = 0
+            while ").bytes()" in body:
+                j = body.index(").bytes()")
+                d, i = 1, j - 1
+                while d:
+                    if body[i] == ")":
+                        d += 1
+                    elif body[i] == "(":
+                        d -= 1
+                    i -= 1
+                i += 1
+                body = body[:i] + "verif_io::str_bytes_vec(" + body[i + 1:j] + ").into_iter()" + body[j + len(").bytes()"):]
+                n += 1
+            self.rewrites.append(f"{rel}: `{sig}`: R12 {n} `(..).bytes()` -> verif_io::str_bytes_vec(..).into_iter() (the same bytes in the same order, ASCII text)")
+        return self._assemble(fsig, contract, body, loops, f"{rel}::[{sig}]", opts)
+
+    @staticmethod
+    def _str_param_ops(body: str, name: str):
+        n = 0
+        out, i = "", 0
+        pat = re.compile(r"&?\b" + re.escape(name) + r"\[")
+        while True:
+            m = pat.search(body, i)
+            if not m:
+                out += body[i:]
+                break
+            j = m.end()
+            d = 1
+            while d:
+                if body[j] == "[":
+                    d += 1
+                elif body[j] == "]":
+                    d -= 1
+                j += 1
+            inner = body[m.end():j - 1]
+            if ".." not in inner:
+                out += body[i:j]
+                i = j
+                continue
+            a_, _, b_ = inner.partition("..")
+            a_ = a_.strip() or "0"
+            b_ = b_.strip() or f"{name}.len()"
+            out += body[i:m.start()] + f"verif_io::str_slice({name}, {a_}, {b_})"
+            i = j
+            n += 1
+        body = out
+        b2 = re.sub(r"\b" + re.escape(name) + r"\.len\(\)", f"verif_io::str_len({name})", body)
+        n += len(re.findall(r"\b" + re.escape(name) + r"\.len\(\)", body))
+        return b2, n
 
     @staticmethod
     def _ty(ty: str) -> str:
@@ -395,7 +460,7 @@ def expand(template: str, ex: Extractor) -> str:
         if kind in ("fn", "action"):
             # collect contract block
             contract, loops = [], {}
-            opts = {"ghost": [], "after": [], "before": [], "str": []}
+            opts = {"ghost": [], "after": [], "before": [], "str": [], "strslice": False}
             j = i + 1
             if j < len(lines) and lines[j].strip().startswith("//@contract"):
                 j += 1
@@ -404,7 +469,9 @@ def expand(template: str, ex: Extractor) -> str:
                     s = lines[j].strip()
                     lm = re.match(r"//@loop (\d+)", s)
                     om = re.match(r"//@(ghost|after|before|str)\s+(.*)$", s)
-                    if om and cur_loop is None:
+                    if s == "//@strslice":
+                        opts["strslice"] = True
+                    elif om and cur_loop is None:
                         if om.group(1) == "str":
                             opts["str"] += om.group(2).split()
                         else:
@@ -430,7 +497,7 @@ def expand(template: str, ex: Extractor) -> str:
             else:
                 rel, _, tail = rest.partition(" ")
                 sig, _, name = tail.rpartition(" as ")
-                out.append(ex.action(rel, sig.strip(), name.strip(), ctext, loops))
+                out.append(ex.action(rel, sig.strip(), name.strip(), ctext, loops, opts=opts))
             i = j
             continue
         raise Undecided(f"stray directive: {ln}")
